@@ -20,7 +20,7 @@ fn gen_case(dna: &[u8], cfg: &crate::gen::GenCfg) -> Case {
 	cfg.finished = true;
 	// a share of files from newer versions (longer known payloads, incl. Game End): still finished replays
 	cfg.newer = f >= 216;
-	Case { m: crate::gen::gen_model(&mut d, &cfg), hash: f & 1 != 0, comp: Comp::ALL[(f as usize >> 1) % 3] }
+	Case { m: super::gen_model_mixed(&mut d, &cfg, true), hash: f & 1 != 0, comp: Comp::ALL[(f as usize >> 1) % 3] }
 }
 
 fn se_opts() -> CmpOpts {
